@@ -7,6 +7,7 @@ void dump_more_memory();
 void dump_more_msp430dis();
 void dump_more_riscv();
 void dump_more_symbols();
+void dump_more_safe();
 static void dump_more()
 {
   dump_more_cond();
@@ -14,5 +15,6 @@ static void dump_more()
   dump_more_msp430dis();
   dump_more_riscv();
   dump_more_symbols();
+  dump_more_safe();
 }
 #endif
